@@ -76,3 +76,94 @@ func Shapes(thorough bool) []shape.Shape {
 	}
 	return out
 }
+
+// ---- OpenPGP packet length boundaries ----
+
+// A LengthBoundary is one place where the encoding of an OpenPGP packet body
+// length changes form (RFC 4880 §4.2): Last is the largest body length that
+// still takes the form named first.
+type LengthBoundary struct {
+	Last int
+	What string
+}
+
+// LengthBoundaries lists every such place up to 64 KiB: the new-format forms of
+// §4.2.2 (one octet up to 191, two octets up to 8383, five octets beyond; a
+// partial body length is a power of two and the first partial chunk has at
+// least 512 octets) and the old-format forms of §4.2.1 (one octet up to 255,
+// two octets up to 65535, four octets beyond).
+func LengthBoundaries() []LengthBoundary {
+	out := []LengthBoundary{
+		{191, "new-format one-octet | two-octet length (RFC 4880 4.2.2.1/4.2.2.2)"},
+		{255, "old-format one-octet | two-octet length (RFC 4880 4.2.1)"},
+		{8383, "new-format two-octet | five-octet length (RFC 4880 4.2.2.2/4.2.2.3)"},
+		{65535, "old-format two-octet | four-octet length (RFC 4880 4.2.1)"},
+	}
+	for k := 9; k <= 16; k++ {
+		out = append(out, LengthBoundary{1<<k - 1, fmt.Sprintf("partial body length chunk of 2^%d octets (RFC 4880 4.2.2.4)", k)})
+	}
+	return out
+}
+
+// BoundaryBodyLengths returns, in ascending order and without duplicates, the
+// packet body lengths Last-1, Last, Last+1, Last+2 of every LengthBoundary: two
+// lengths on either side of each change of form (for a power of two 2^k: 2^k-2
+// … 2^k+1).
+func BoundaryBodyLengths() []int {
+	seen := map[int]bool{}
+	var out []int
+	for _, b := range LengthBoundaries() {
+		for d := -1; d <= 2; d++ {
+			if n := b.Last + d; !seen[n] {
+				seen[n] = true
+				out = append(out, n)
+			}
+		}
+	}
+	for i := 1; i < len(out); i++ { // insertion sort: the list is short
+		for j := i; j > 0 && out[j] < out[j-1]; j-- {
+			out[j], out[j-1] = out[j-1], out[j]
+		}
+	}
+	return out
+}
+
+// LiteralOverhead is the number of octets a literal data packet body holds
+// besides the data (RFC 4880 §5.9): format octet, file name length octet, the
+// file name, four date octets.
+func LiteralOverhead(fileName string) int { return 6 + len(fileName) }
+
+// BoundaryDocument returns a text document (lines of 60 characters, LF) of the
+// length that makes the literal data packet of an inline signed message,
+// which carries the document under the file name fileName, have a body of
+// exactly bodyLen octets; ok is false when no such document exists.
+func BoundaryDocument(bodyLen int, fileName string) (doc []byte, ok bool) {
+	n := bodyLen - LiteralOverhead(fileName)
+	if n < 0 {
+		return nil, false
+	}
+	b := make([]byte, n)
+	for i := range b {
+		b[i] = byte('a' + (i/61+i%61+bodyLen)%26)
+		if i%61 == 60 {
+			b[i] = '\n'
+		}
+	}
+	return b, true
+}
+
+// LengthBoundaryShapes: one document per BoundaryBodyLengths entry, stored
+// under the base name file.
+func LengthBoundaryShapes(file string) []shape.Shape {
+	var out []shape.Shape
+	for _, n := range BoundaryBodyLengths() {
+		doc, ok := BoundaryDocument(n, file)
+		if !ok {
+			continue
+		}
+		s := mk(fmt.Sprintf("literal-body-%d", n), fmt.Sprintf("literal-packet-body-of-%d-octets", n), doc)
+		s.File = file
+		out = append(out, s)
+	}
+	return out
+}
